@@ -62,3 +62,22 @@ Theorem C10_record_always_parses z now id en mask st s e t0 t1 t2 t3 ds :
           sc_duration := dur; sc_display := disp |}.
 Proof. exact (record_parses z now id en mask st s e t0 t1 t2 t3 ds). Qed.
 Print Assumptions C10_record_always_parses.
+
+(* create / read back, every zone table, every instant: for clock times that exist today and a non-empty duplicate-free day
+   collection, what create_schedule's encoders produce (C11's instants for start and end, C12's mask for the days - the content of
+   the record C02_create_schedule puts on the wire) is read back, from a record holding these three values in any slot and at any
+   later moment, as exactly that day set and those HH:MM times *)
+Require Import AS.Model.Clock AS.Proofs.WeekdayProofs AS.Proofs.ReadBack.
+Theorem C10_created_schedule_reads_back z now later hs he l id en st t0 t1 t2 t3 :
+  (hs < 1440)%N -> (he < 1440)%N -> exists_today z now hs -> exists_today z now he ->
+  l <> [] -> NoDup l -> (forall d, In d l -> (d < n_days)%nat) -> (id < 256)%N ->
+  let ts := Z.to_N (instant z now hs) in let te := Z.to_N (instant z now he) in
+  time_to_hexadecimal_timestamp_z false z now (hhmm hs) = Ok (hexlify (le32 ts)) /\
+  time_to_hexadecimal_timestamp_z false z now (hhmm he) = Ok (hexlify (le32 te)) /\
+  weekdays_to_hexadecimal (ASet l) = Ok (hexbyte (sum_bits l)) /\ weekdays_to_hexadecimal (ASeq l) = Ok (hexbyte (sum_bits l)) /\
+  exists dur disp,
+    parse_schedule false false z later (hexlify (record id en (sum_bits l) st ts te t0 t1 t2 t3)) =
+    Ok {| sc_id := str_N id; sc_recurring := true; sc_days := filter (memb l) all_days;
+          sc_start := hhmm hs; sc_end := hhmm he; sc_duration := dur; sc_display := disp |}.
+Proof. exact (created_schedule_reads_back z now later hs he l id en st t0 t1 t2 t3). Qed.
+Print Assumptions C10_created_schedule_reads_back.
